@@ -24,7 +24,7 @@ ASSUMPTIONS = ["values compared on the intersection of rows where both runs prod
                "hourly families, on days with usable usage in both runs for the daily family (a day without usage gets no prediction: C07), not for billing",
                "billing: the observed column is altered on the billing reads; the same read calendar is kept"]
 REQUIRED_REACH = {"pair.compared": 60, "pair.rows": 5000, "baseline.covers_all_months_and_weekdays": 6, "alteration.absent": 6, "alteration.all_nan": 6,
-                  "span.with_dst_change": 4, "span.with_weather_gaps": 4, "pair.presence_compared": 40, "pair.presence_rows": 5000, "span.daily_from_series_hourly_temperature": 2}
+                  "span.with_dst_change": 4, "span.with_weather_gaps": 4, "pair.presence_compared": 40, "pair.presence_rows": 5000, "span.daily_from_series_hourly_temperature": 2, "span.with_duplicated_timestamps": 4}
 
 VIOL = []
 
@@ -125,10 +125,26 @@ def run_case(spec):
                 a = int(rng.integers(24, max(25, len(base) - 80)))
                 base.iloc[a:a + 30, base.columns.get_loc(col)] = np.nan
             I.reach("span.with_weather_gaps")
+        if (sname == "partial" and fam.kind == "daily") or (sname in ("week", "partial") and fam.kind == "hourly"):
+            # a feed with duplicated timestamps: a placeholder record (no usage, stale weather) delivered before the actual record.  Which record
+            # is kept (the first, C17) must not depend on which of them carries a usage reading
+            kk = np.sort(rng.choice(np.arange(1, len(base) - 1), size=max(2, len(base) // 40), replace=False))
+            ph = base.iloc[kk].copy()
+            ph["observed"] = np.nan
+            ph["temperature"] = ph["temperature"] + 7.0
+            if "ghi" in ph.columns:
+                ph["ghi"] = ph["ghi"] * 0.5
+            base = pd.concat([ph, base]).sort_index(kind="stable")
+            I.reach("span.with_duplicated_timestamps")
         if sname == "month-with-dst" and tz not in ("UTC", "Asia/Kolkata"):
             I.reach("span.with_dst_change")
         try:
-            ref = fam.predict(copy.deepcopy(m), make_rd(base))
+            ref_data = make_rd(base)
+        except Exception:
+            I.reach("span.unaltered_set_rejected_by_the_data_class")       # the data class's business (C10); nothing to compare
+            continue
+        try:
+            ref = fam.predict(copy.deepcopy(m), ref_data)
         except Exception as e:
             add("predict-raised:%s:%s" % (fam.kind, type(e).__name__), "predict on the unaltered %s set raised %s: %s" % (sname, type(e).__name__, str(e)[:160]), family=spec["family"])
             continue
@@ -156,6 +172,7 @@ def run_case(spec):
             if fam.kind in ("hourly", "caltrack", "daily"):
                 if fam.kind == "daily":
                     def usable(frame):
+                        frame = frame[~frame.index.duplicated(keep="first")]          # of duplicated timestamps the first record counts (C17)
                         if "observed" not in frame.columns:
                             return pd.Series(True, index=frame.index)
                         o_ = frame["observed"].to_numpy(dtype=float)
